@@ -1413,23 +1413,26 @@ namespace awkward {
   template <typename T, typename I>
   bool
   ForthMachineOf<T, I>::is_integer(const std::string& word, int64_t& value) const {
+    // the whole word has to be the number: "12abc" is not the literal 12
+    size_t used = 0;
     if (word.size() >= 2  &&  word.substr(0, 2) == std::string("0x")) {
+      std::string digits = word.substr(2, word.size() - 2);
       try {
-        value = (int64_t)std::stoul(word.substr(2, word.size() - 2), nullptr, 16);
+        value = (int64_t)std::stoul(digits, &used, 16);
       }
       catch (std::invalid_argument& err) {
         return false;
       }
-      return true;
+      return used == digits.size();
     }
     else {
       try {
-        value = (int64_t)std::stoul(word, nullptr, 10);
+        value = (int64_t)std::stoul(word, &used, 10);
       }
       catch (std::invalid_argument& err) {
         return false;
       }
-      return true;
+      return used == word.size();
     }
   }
 
